@@ -1279,12 +1279,13 @@ class Driver(object, metaclass=DriverMetaclass):
                 if meta['equals'] is not None:
                     con_val -= meta['equals']
                 else:
-                    lower_viol_idxs = np.where(con_val < meta['lower'])[0]
-                    upper_viol_idxs = np.where(con_val > meta['upper'])[0]
-                    non_viol_idxs = np.where((con_val >= meta['lower'])
-                                             & (con_val <= meta['upper']))[0]
-                    con_val[lower_viol_idxs] -= meta['lower']
-                    con_val[upper_viol_idxs] -=  meta['upper']
+                    lower = np.broadcast_to(meta['lower'], con_val.shape)
+                    upper = np.broadcast_to(meta['upper'], con_val.shape)
+                    lower_viol_idxs = np.where(con_val < lower)[0]
+                    upper_viol_idxs = np.where(con_val > upper)[0]
+                    non_viol_idxs = np.where((con_val >= lower) & (con_val <= upper))[0]
+                    con_val[lower_viol_idxs] -= lower[lower_viol_idxs]
+                    con_val[upper_viol_idxs] -= upper[upper_viol_idxs]
                     con_val[non_viol_idxs] = 0.0
 
             con_dict[name] = con_vec[name].copy()
